@@ -134,4 +134,107 @@ Section Out.
     rewrite read_batch_skip; [exact Hrd | apply (rs_pend _ _ _ _ S)|].
     eapply Forall_impl; [|exact HJ]. intros a [H _]. exact H.
   Qed.
+
+  (* ---------------------------------------------------------------- _forget_tree *)
+  Definition blw (p x : bytes) : bool := beqb x p || under p x.
+  Definition tight (r : rstate) : Prop :=
+    forall x wd, alookup beqb x (wfp r) = Some wd -> alookup N.eqb wd (pfw r) = Some x.
+  (* wd is the descriptor recorded for the forgotten path or for something below it *)
+  Definition fz (r : rstate) (p : bytes) (wd : N) : Prop :=
+    exists x, blw p x = true /\ alookup beqb x (wfp r) = Some wd.
+
+  Lemma krm_watches_eq k wd :
+    k_watches (krm_watch k wd) = filter (fun x => negb (N.eqb (kw_wd x) wd)) (k_watches k) /\
+    k_next_wd (krm_watch k wd) = k_next_wd k /\ k_next_cookie (krm_watch k wd) = k_next_cookie k /\
+    exists ig, k_queue (krm_watch k wd) = k_queue k ++ ig /\ Forall (fun a => k_wd a = wd) ig.
+  Proof.
+    unfold krm_watch. destruct (find _ (k_watches k)) as [kw|] eqn:Ef; cbn.
+    - repeat split. destruct (CoverProofs.kpush_cases (k_queue k) {| k_wd := wd; k_mask := IN_IGNORED; k_cookie := 0; k_name := [] |}) as [E|E]; rewrite E.
+      + exists []. now rewrite app_nil_r.
+      + eexists. split; [reflexivity|]. now repeat constructor.
+    - repeat split.
+      + symmetry. rewrite find_none_iff in Ef. induction (k_watches k) as [|a l IH]; [reflexivity|]. cbn.
+        rewrite (Ef a) by now left. cbn. f_equal. apply IH. intros x Hx. apply Ef. now right.
+      + exists []. now rewrite app_nil_r.
+  Qed.
+
+  Lemma filter_filter {A} (f g : A -> bool) l : filter f (filter g l) = filter (fun x => g x && f x) l.
+  Proof. induction l as [|a l IH]; [reflexivity|]. cbn. destruct (g a); cbn; [destruct (f a)|]; now rewrite ?IH. Qed.
+
+  Lemma forget_tree_spec p : forall keys r k r' k', tight r -> forget_tree keys p r k = (r', k') ->
+    tight r' /\
+    (forall x wd, alookup beqb x (wfp r') = Some wd -> alookup beqb x (wfp r) = Some wd) /\
+    (forall x, blw p x = false -> alookup beqb x (wfp r') = alookup beqb x (wfp r)) /\
+    (forall x, blw p x = true -> In x (map fst keys) -> alookup beqb x (wfp r') = None) /\
+    (forall wd, ~ fz r p wd -> alookup N.eqb wd (pfw r') = alookup N.eqb wd (pfw r)) /\
+    (forall wd, alookup N.eqb wd (pfw r) = None -> alookup N.eqb wd (pfw r') = None) /\
+    (forall x wd, blw p x = true -> In x (map fst keys) -> alookup beqb x (wfp r) = Some wd -> alookup N.eqb wd (pfw r') = None) /\
+    mvf r' = mvf r /\ pend r' = pend r /\
+    (exists f, k_watches k' = filter f (k_watches k) /\ (forall kw, f kw = false -> fz r p (kw_wd kw)) /\
+       (forall x wd kw, blw p x = true -> In x (map fst keys) -> alookup beqb x (wfp r) = Some wd -> kw_wd kw = wd -> f kw = false)) /\
+    k_next_wd k' = k_next_wd k /\ k_next_cookie k' = k_next_cookie k /\
+    (exists ig, k_queue k' = k_queue k ++ ig /\ Forall (fun a => fz r p (k_wd a)) ig).
+  Proof.
+    induction keys as [|[q0 y] keys IH]; intros r k r' k' Ht H; cbn [forget_tree] in H.
+    - injection H as <- <-. split; [exact Ht|]. repeat split; auto; try (intros x _ []).
+      + intros x wd _ [].
+      + exists (fun _ => true). split; [|split; [discriminate | intros x wd kw _ []]].
+        induction (k_watches k) as [|a l IHl]; [reflexivity | cbn; now rewrite <- IHl].
+      + exists []. now rewrite app_nil_r.
+    - change (beqb q0 p || starts (p ++ [sep]) q0) with (blw p q0) in H. cbn [map fst].
+      destruct (blw p q0) eqn:Eb.
+      2:{ destruct (IH _ _ _ _ Ht H) as (T' & W0 & W1 & W2 & P1 & P0 & P2 & M & Pd & (f & F1 & F2 & F3) & N1 & N2 & Q).
+          split; [exact T'|]. repeat split; try assumption.
+          - intros x Hx [E|Hin]; [cbn in E; subst; congruence | now apply W2].
+          - intros x wd Hx [E|Hin]; [cbn in E; subst; congruence | now apply P2].
+          - exists f. split; [exact F1|]. split; [exact F2|]. intros x wd kw Hx [E|Hin]; [cbn in E; subst; congruence | now apply F3]. }
+      destruct (alookup beqb q0 (wfp r)) as [wd0|] eqn:Ew.
+      2:{ destruct (IH _ _ _ _ Ht H) as (T' & W0 & W1 & W2 & P1 & P0 & P2 & M & Pd & (f & F1 & F2 & F3) & N1 & N2 & Q).
+          split; [exact T'|]. repeat split; try assumption.
+          - intros x Hx [E|Hin]; [|now apply W2]. cbn in E. subst x.
+            destruct (alookup beqb q0 (wfp r')) as [w1|] eqn:E1; [|reflexivity]. apply W0 in E1. congruence.
+          - intros x wd Hx [E|Hin]; [cbn in E; subst; congruence | now apply P2].
+          - exists f. split; [exact F1|]. split; [exact F2|]. intros x wd kw Hx [E|Hin]; [cbn in E; subst; congruence | now apply F3]. }
+      rewrite (Ht _ _ Ew), beqb_refl in H.
+      set (r2 := {| wfp := aremove beqb q0 (wfp r); pfw := aremove N.eqb wd0 (pfw r); mvf := mvf r; calls := calls r; pend := pend r |}) in *.
+      assert (Hinj : forall x wd, x <> q0 -> alookup beqb x (wfp r) = Some wd -> wd <> wd0).
+      { intros x wd Hne Hx E. subst wd. apply Ht in Hx. rewrite (Ht _ _ Ew) in Hx. congruence. }
+      assert (T2 : tight r2).
+      { intros x wd Hx. cbn [r2 wfp pfw] in *. destruct (bytes_eq_dec x q0) as [->|Hne]; [now rewrite wrem_eq in Hx|].
+        rewrite wrem_neq in Hx by assumption. rewrite prem_neq by (eapply Hinj; eauto). now apply Ht. }
+      assert (Hfz : forall wd, fz r2 p wd -> fz r p wd).
+      { intros wd (x & Hx & Hl). exists x. split; [exact Hx|]. cbn [r2 wfp] in Hl.
+        destruct (bytes_eq_dec x q0) as [->|Hne]; [now rewrite wrem_eq in Hl | now rewrite wrem_neq in Hl]. }
+      assert (Hfz0 : fz r p wd0) by (exists q0; now split).
+      destruct (IH _ _ _ _ T2 H) as (T' & W0 & W1 & W2 & P1 & P0 & P2 & M & Pd & (f & F1 & F2 & F3) & N1 & N2 & (ig & Q1 & Q2)).
+      destruct (krm_watches_eq k wd0) as (K1 & K2 & K3 & ig0 & K4 & K5).
+      split; [exact T'|]. split; [|split; [|split; [|split; [|split; [|split; [|split; [|split; [|split; [|split; [|split]]]]]]]]]].
+      + intros x wd Hx. apply W0 in Hx. cbn [r2 wfp] in Hx.
+        destruct (bytes_eq_dec x q0) as [->|Hne]; [now rewrite wrem_eq in Hx | now rewrite wrem_neq in Hx].
+      + intros x Hx. rewrite W1 by assumption. cbn [r2 wfp]. apply wrem_neq. intros ->. congruence.
+      + intros x Hx [E|Hin].
+        * cbn in E. subst x. destruct (alookup beqb q0 (wfp r')) as [w1|] eqn:E1; [|reflexivity].
+          apply W0 in E1. cbn [r2 wfp] in E1. now rewrite wrem_eq in E1.
+        * now apply W2.
+      + intros wd Hn. rewrite P1 by (intros Hf; apply Hn; now apply Hfz). cbn [r2 pfw]. apply prem_neq. intros ->. contradiction.
+      + intros wd Hn. apply P0. cbn [r2 pfw]. destruct (N.eq_dec wd wd0) as [->|Hne]; [apply prem_eq | now rewrite prem_neq].
+      + intros x wd Hx Hin Hl. destruct (bytes_eq_dec x q0) as [->|Hne].
+        * assert (wd = wd0) by congruence. subst wd. apply P0. cbn [r2 pfw]. apply prem_eq.
+        * destruct Hin as [E|Hin]; [cbn in E; congruence|]. apply (P2 x wd Hx Hin). cbn [r2 wfp]. now rewrite wrem_neq.
+      + now rewrite M.
+      + now rewrite Pd.
+      + exists (fun x => negb (N.eqb (kw_wd x) wd0) && f x). split; [now rewrite F1, K1, filter_filter|]. split.
+        * intros kw Hf. apply andb_false_iff in Hf as [Hf|Hf].
+          -- apply negb_false_iff, N.eqb_eq in Hf. now rewrite Hf.
+          -- now apply Hfz, F2.
+        * intros x wd kw Hx Hin Hl Ek. destruct (bytes_eq_dec x q0) as [->|Hne].
+          -- assert (Ewd : wd = wd0) by congruence. rewrite Ewd in Ek. rewrite Ek, N.eqb_refl. reflexivity.
+          -- destruct Hin as [E|Hin]; [cbn in E; congruence|].
+             rewrite (F3 x wd kw Hx Hin); [apply andb_false_r | cbn [r2 wfp]; now rewrite wrem_neq | exact Ek].
+      + now rewrite N1.
+      + now rewrite N2.
+      + exists (ig0 ++ ig). split; [now rewrite Q1, K4, app_assoc|]. apply Forall_app. split.
+        * eapply Forall_impl; [|exact K5]. intros a ->. exact Hfz0.
+        * eapply Forall_impl; [|exact Q2]. intros a. apply Hfz.
+  Qed.
 End Out.
